@@ -523,6 +523,10 @@ fn main() {
     let args: Vec<String> = std::env::args().collect();
     let mut file = None;
     let mut sort = true;
+    if args.len() > 2 && args[1] == "--aconc" {
+        asyncrun::main_conc(&args[2]);
+        return;
+    }
     if args.len() > 2 && args[1] == "--async" {
         asyncrun::main(&args[2], args.iter().any(|a| a == "--pending"), !args.iter().any(|a| a == "--no-tokio"));
         return;
